@@ -68,12 +68,12 @@ func run(r *vk.Run, prog []model.Node, partials map[string][]model.Node, class s
 			},
 		})
 	}
-	want := model.RunWith(prog, progs.Data(), mk(&mcount), partials)
+	want := model.RunWith(prog, c05Data(), mk(&mcount), partials)
 	if want.Unspec != "" {
 		r.Exclude("unspecified")
 		return nil
 	}
-	ctx := progs.Context(progs.Data(), mk(&pcount), ptext)
+	ctx := progs.Context(c05Data(), mk(&pcount), ptext)
 	var rerr error
 	res := vk.Safe(func() (string, error) { s, err := plush.Render(src, ctx); rerr = err; return s, err })
 	fail := func(f string, a ...interface{}) *vk.Fail {
@@ -123,6 +123,14 @@ func run(r *vk.Run, prog []model.Node, partials map[string][]model.Node, class s
 	return nil
 }
 
+// c05Data: the shared data plus a three-entry map (visited in any order by plush; the
+// positions that loop over it render nothing, so only error-ness is compared)
+func c05Data() map[string]interface{} {
+	d := progs.Data()
+	d["mp"] = &model.OrderedMap{Keys: []interface{}{"k1", "k2", "k3"}, Vals: map[interface{}]interface{}{"k1": 1, "k2": 2, "k3": 3}}
+	return d
+}
+
 // ---- fixed positions: one fault planted at every syntactic position ---------------------------------
 
 func positions(f model.Expr) map[string][]model.Node {
@@ -154,6 +162,12 @@ func positions(f model.Expr) map[string][]model.Node {
 		model.EmitIf{If: &model.If{Cond: model.Bin{Op: "==", L: model.Var{Name: "v"}, R: lit(2)}, Then: []model.Node{emit(f)}}}}}}, T("b")}
 	out["empty loop body"] = []model.Node{T("a"), model.EmitFor{For: &model.For{Val: "v", Iter: model.Arr{}, Body: []model.Node{emit(f)}}}, T("b")}
 	out["silent loop body"] = []model.Node{T("a"), model.Code{S: model.ForS{For: &model.For{Val: "v", Iter: model.Var{Name: "two"}, Body: []model.Node{model.Code{S: model.ExprS{X: f}}}}}}, T("b")}
+	// a map loop in which exactly one entry reaches the fault (whatever the visiting order, the render must fail)
+	out["map loop body, one entry"] = []model.Node{T("a"), model.Code{S: model.ForS{For: &model.For{Key: "k", Val: "v", Iter: model.Var{Name: "mp"}, Body: []model.Node{
+		model.Code{S: model.IfS{If: &model.If{Cond: model.Bin{Op: "==", L: model.Var{Name: "v"}, R: lit(2)}, Then: []model.Node{model.Code{S: model.LetS{Name: "z", X: f}}}}}}}}}}, T("b")}
+	out["map loop body, no entry"] = []model.Node{T("a"), model.Code{S: model.ForS{For: &model.For{Key: "k", Val: "v", Iter: model.Var{Name: "mp"}, Body: []model.Node{
+		model.Code{S: model.IfS{If: &model.If{Cond: model.Bin{Op: "==", L: model.Var{Name: "v"}, R: lit(9)}, Then: []model.Node{model.Code{S: model.LetS{Name: "z", X: f}}}}}}}}}}, T("b")}
+	out["map loop iterable value"] = []model.Node{T("a"), model.Code{S: model.ForS{For: &model.For{Val: "v", Iter: model.Idx{X: model.Hash{KVs: []model.KV{{K: "p", V: model.Arr{Els: []model.Expr{f}}}}}, I: lit("p")}, Body: nil}}}, T("b")}
 	out["array element"] = []model.Node{T("a"), emit(model.Arr{Els: []model.Expr{lit(1), f, lit(2)}}), T("b")}
 	out["hash value"] = []model.Node{T("a"), emit(model.Idx{X: model.Hash{KVs: []model.KV{{K: "p", V: lit(1)}, {K: "q", V: f}}}, I: lit("p")}), T("b")}
 	out["index"] = []model.Node{T("a"), emit(model.Idx{X: model.Var{Name: "arr"}, I: f}), T("b")}
@@ -183,7 +197,7 @@ func partialsFor(f model.Expr) map[string][]model.Node {
 	}
 }
 
-const rule = "(E) each of 6 faults - a helper returning a sentinel error, 1/0, 1 + \"a\", arr[99], an unknown identifier, a helper whose error WRAPS an unknown-identifier error (as a nested render does) - planted at each of 61 syntactic positions (either operand of all 13 operators, short-circuited operands, !, emitted, silent tag, let / assignment value, if / else-if condition (reached and not reached), taken / untaken / else branch body, silent if body, loop iterable / body / second iteration / empty loop / silent loop, array element, hash value, index, argument of Go helper / user function, user function body (called / not called), block of a block helper, contentFor block rendered / never rendered by contentOf, contentOf / partial data value, partial body, nested partial body, after 750 bytes of output). (R) random well-formed programs over all constructs in which about one leaf in seven is a fault. Oracle: the statement's own (failing helper invoked => non-nil error, errors.Is(err, original), empty output) plus, in both directions, the reference interpreter: the render fails exactly when the reference says a fault is evaluated outside the tolerated positions (unknown identifier as condition or operand of ! == != && ||), and otherwise renders the reference output. Non-trivial = the program contains a fault (reached or not); distinct by template + partial texts."
+const rule = "(E) each of 6 faults - a helper returning a sentinel error, 1/0, 1 + \"a\", arr[99], an unknown identifier, a helper whose error WRAPS an unknown-identifier error (as a nested render does) - planted at each of 64 syntactic positions (either operand of all 13 operators, short-circuited operands, !, emitted, silent tag, let / assignment value, if / else-if condition (reached and not reached), taken / untaken / else branch body, silent if body, loop iterable / body / second iteration / empty loop / silent loop, a map loop in which one / no entry reaches the fault (repeated, any visiting order), array element, hash value, index, argument of Go helper / user function, user function body (called / not called), block of a block helper, contentFor block rendered / never rendered by contentOf, contentOf / partial data value, partial body, nested partial body, after 750 bytes of output). (R) random well-formed programs over all constructs in which about one leaf in seven is a fault. Oracle: the statement's own (failing helper invoked => non-nil error, errors.Is(err, original), empty output) plus, in both directions, the reference interpreter: the render fails exactly when the reference says a fault is evaluated outside the tolerated positions (unknown identifier as condition or operand of ! == != && ||), and otherwise renders the reference output. Non-trivial = the program contains a fault (reached or not); distinct by template + partial texts."
 
 func setup(t *testing.T) *vk.Run {
 	r := vk.Start(t, "C05", rule,
@@ -229,13 +243,19 @@ func TestProp(t *testing.T) {
 		}
 		sort.Strings(keys)
 		for _, k := range keys {
-			if r.Mine(cells) {
-				r.Check(run(r, pos[k], partialsFor(f), "position/"+faultNames[fi]))
+			reps := 1
+			if strings.HasPrefix(k, "map loop") {
+				reps = 8 // the visiting order of a Go map varies: give every order a chance
 			}
-			cells++
+			for rep := 0; rep < reps; rep++ {
+				if r.Mine(cells) {
+					r.Check(run(r, pos[k], partialsFor(f), "position/"+faultNames[fi]))
+				}
+				cells++
+			}
 		}
 	}
-	r.Subspace("6 fault kinds x 61 syntactic positions", cells, true)
+	r.Subspace("6 fault kinds x 64 syntactic positions", cells, true)
 
 	r.Rapid("programs", r.Pick(6000, 80000), func(t *rapid.T) *vk.Fail {
 		g := progs.New(t, progs.Options{MaxDepth: 3, FaultRate: rapid.SampledFrom([]int{4, 7, 15}).Draw(t, "rate"), Faults: faults})
